@@ -11,6 +11,7 @@ where appends after a recovery landed behind a gap of zeros.
 -/
 import InfluxVerif.Lemmas.Wal
 import InfluxVerif.Props.C13
+import InfluxVerif.Model.SnapWal
 
 namespace InfluxVerif.Codec
 
@@ -111,3 +112,167 @@ example : (walReplay (fun ty _ => ty != 0) 4 (segmentBytes [⟨1, [9, 9]⟩] ++ 
     = [⟨1, [9, 9]⟩] := by decide
 
 end InfluxVerif.Codec
+
+/-! ### the cache snapshot and the WAL: nothing acknowledged is ever outside files + WAL -/
+
+namespace InfluxVerif.SnapWal
+
+/-- every acknowledged write is durable, and everything in the WAL is still in the cache
+(snapshot or live store) unless a file holds it -/
+def Inv (s : St) : Prop :=
+  (∀ w ∈ s.acked, w ∈ durable s) ∧
+  (∀ w ∈ s.closed.flatten ++ s.cur, w ∈ s.files ∨ w ∈ s.snap ∨ w ∈ s.store)
+
+theorem inv_init : Inv {} := by
+  constructor <;> intro w hw <;> simp [durable] at hw
+
+theorem inv_write (s : St) (w : Nat) (h : Inv s) : Inv (write s w) := by
+  obtain ⟨h1, h2⟩ := h
+  constructor
+  · intro x hx
+    simp only [write, List.mem_append, List.mem_singleton] at hx
+    simp only [durable, write, List.mem_append, List.mem_singleton]
+    rcases hx with hx | hx
+    · have := h1 x hx
+      simp only [durable, List.mem_append] at this
+      rcases this with (h | h) | h
+      · exact Or.inl (Or.inl h)
+      · exact Or.inl (Or.inr h)
+      · exact Or.inr (Or.inl h)
+    · exact Or.inr (Or.inr hx)
+  · intro x hx
+    simp only [write, List.mem_append, List.mem_singleton] at hx ⊢
+    rcases hx with hx | hx | hx
+    · rcases h2 x (by simp [hx]) with h | h | h
+      · exact Or.inl h
+      · exact Or.inr (Or.inl h)
+      · exact Or.inr (Or.inr (Or.inl h))
+    · rcases h2 x (by simp [hx]) with h | h | h
+      · exact Or.inl h
+      · exact Or.inr (Or.inl h)
+      · exact Or.inr (Or.inr (Or.inl h))
+    · exact Or.inr (Or.inr (Or.inr hx))
+
+/-- the WAL content does not change when the open segment is closed -/
+theorem wal_begin (s : St) :
+    (begin true s).1.closed.flatten ++ (begin true s).1.cur = s.closed.flatten ++ s.cur := by
+  unfold begin
+  by_cases hc : s.cur.isEmpty
+  · have : s.cur = [] := List.isEmpty_iff.mp hc
+    by_cases hs : s.snap.isEmpty <;> simp [hc, hs, this]
+  · by_cases hs : s.snap.isEmpty <;> simp [hc, hs, List.flatten_append]
+
+theorem begin_fields (s : St) :
+    (begin true s).1.files = s.files ∧ (begin true s).1.acked = s.acked ∧ (begin true s).1.store = [] ∧
+    (∀ x, x ∈ (begin true s).1.snap ↔ x ∈ s.snap ∨ x ∈ s.store) ∧
+    (begin true s).2 = (begin true s).1.closed.length := by
+  unfold begin
+  by_cases hs : s.snap.isEmpty
+  · have : s.snap = [] := List.isEmpty_iff.mp hs
+    simp [hs, this]
+  · simp [hs]
+
+theorem inv_begin (s : St) (h : Inv s) : Inv (begin true s).1 := by
+  obtain ⟨h1, h2⟩ := h
+  obtain ⟨hf, ha, hst, hsn, _⟩ := begin_fields s
+  have hw := wal_begin s
+  constructor
+  · intro x hx
+    rw [ha] at hx
+    have := h1 x hx
+    simp only [durable, List.mem_append] at this ⊢
+    rw [hf]
+    have hw' : x ∈ (begin true s).1.closed.flatten ++ (begin true s).1.cur ↔ x ∈ s.closed.flatten ++ s.cur := by rw [hw]
+    simp only [List.mem_append] at hw'
+    rcases this with (h | h) | h
+    · exact Or.inl (Or.inl h)
+    · rcases hw'.mpr (Or.inl h) with h' | h'
+      · exact Or.inl (Or.inr h')
+      · exact Or.inr h'
+    · rcases hw'.mpr (Or.inr h) with h' | h'
+      · exact Or.inl (Or.inr h')
+      · exact Or.inr h'
+  · intro x hx
+    rw [hw] at hx
+    rw [hf, hst]
+    rcases h2 x hx with h | h | h
+    · exact Or.inl h
+    · exact Or.inr (Or.inl ((hsn x).mpr (Or.inl h)))
+    · exact Or.inr (Or.inl ((hsn x).mpr (Or.inr h)))
+
+theorem inv_succeed (s : St) (h : Inv (begin true s).1) : Inv (succeed (begin true s).1 (begin true s).2) := by
+  obtain ⟨h1, h2⟩ := h
+  obtain ⟨_, _, hst, _, hn⟩ := begin_fields s
+  have hcur : (begin true s).1.cur = [] := by
+    unfold begin
+    by_cases hs : s.snap.isEmpty <;> simp [hs]
+  generalize hb : (begin true s).1 = b at *
+  generalize hm : (begin true s).2 = n at *
+  subst hn
+  constructor
+  · intro x hx
+    simp only [succeed] at hx
+    have := h1 x hx
+    simp only [durable, succeed, List.drop_length, List.flatten_nil, List.append_nil, List.mem_append] at this ⊢
+    rw [hcur] at this ⊢
+    rcases this with (h | h) | h
+    · exact Or.inl (Or.inl h)
+    · rcases h2 x (by simp [h]) with h' | h' | h'
+      · exact Or.inl (Or.inl h')
+      · exact Or.inl (Or.inr h')
+      · rw [hst] at h'; simp at h'
+    · simp at h
+  · intro x hx
+    simp only [succeed, List.drop_length, List.flatten_nil, List.nil_append] at hx
+    rw [hcur] at hx
+    simp at hx
+
+theorem inv_restart (s : St) (h : Inv s) : Inv (restart s) := by
+  obtain ⟨h1, _⟩ := h
+  constructor
+  · intro x hx
+    exact h1 x hx
+  · intro x hx
+    exact Or.inr (Or.inr hx)
+
+theorem inv_step (s : St) (op : Op) (h : Inv s) : Inv (step true s op) := by
+  cases op with
+  | write w => exact inv_write s w h
+  | snapshotOk => exact inv_succeed s (inv_begin s h)
+  | snapshotFails => exact inv_begin s h
+  | restart => exact inv_restart s h
+
+/-- **Every acknowledged write is in a file or in the WAL after every history** of writes,
+cache snapshots that succeed, cache snapshots that fail (and are retried by the next one) and
+restarts — with the repaired retry, which takes what was written since the failure. -/
+theorem acked_always_durable (ops : List Op) :
+    ∀ w ∈ (run true {} ops).acked, w ∈ durable (run true {} ops) := by
+  have : ∀ (s : St), Inv s → Inv (run true s ops) := by
+    induction ops with
+    | nil => intro s h; exact h
+    | cons op rest ih => intro s h; exact ih _ (inv_step s op h)
+  exact (this {} inv_init).1
+
+/-- so a restart at any moment finds all of them: in a file or, replayed, in the cache -/
+theorem restart_reads_all_acked (ops : List Op) :
+    ∀ w ∈ (run true {} ops).acked,
+      w ∈ (restart (run true {} ops)).files ∨ w ∈ (restart (run true {} ops)).store := by
+  intro w hw
+  have := acked_always_durable ops w hw
+  simp only [durable, List.mem_append] at this
+  simp only [restart, List.mem_append]
+  rcases this with (h | h) | h
+  · exact Or.inl h
+  · exact Or.inr (Or.inl h)
+  · exact Or.inr (Or.inr h)
+
+/-- **The pinned retry loses an acknowledged write**: a snapshot attempt fails, a write is
+acknowledged, the next attempt writes the old snapshot alone and removes both segments
+(repaired in /repo, see DESIGN 7.1; replays/corpus/C01-failed-snapshot-loses-wal.json). -/
+theorem old_retry_loses_a_write :
+    let s := run false {} [.write 1, .snapshotFails, .write 2, .snapshotOk]
+    2 ∈ s.acked ∧ 2 ∉ durable s ∧ 2 ∉ (restart s).store := by decide
+
+example : durable (run true {} [.write 1, .snapshotFails, .write 2, .snapshotOk]) = [1, 2] := by decide
+
+end InfluxVerif.SnapWal
